@@ -239,24 +239,27 @@ def _run_pool(jobs, workers):
         ready = wait([v[2] for v in running.values()] + list(running), timeout=5.0)
         for sentinel in list(running):
             p, job, rd, t0 = running[sentinel]
-            got = None
+            got, eof = None, False
             if rd in ready or rd.poll():
                 try:
                     got = rd.recv()
                 except (EOFError, OSError):
-                    got = None
-                if got is not None:
-                    results.append(got)
-                    rd.close()
-                    p.join(30)
-                    if p.is_alive():
-                        p.kill()
-                    del running[sentinel]
-                    continue
-            if not p.is_alive():
-                # the process is gone and nothing (more) can come out of its pipe
-                if rd.poll():
-                    continue        # a result is still buffered: next round
+                    eof = True          # the other end is closed and nothing was sent
+            if got is not None:
+                results.append(got)
+                rd.close()
+                p.join(30)
+                if p.is_alive():
+                    p.kill()
+                del running[sentinel]
+                continue
+            if eof or not p.is_alive():
+                if not eof and rd.poll():
+                    continue        # the process has exited but its result is still in the pipe: next round
+                p.join(10)
+                if p.is_alive():
+                    p.kill()
+                    p.join(10)
                 code = p.exitcode
                 how = f'killed by signal {-code}' if code is not None and code < 0 else f'exit code {code}'
                 results.append(_dead_result(job, f'the process running shard {job[2]} died ({how}) without delivering a result after {int(time.time() - t0)}s: '
